@@ -249,8 +249,14 @@ class StandardQTomography(QTomography):
             tmp_prob_dists = (
                 self.calc_matA() @ qope.to_stacked_vector() + self.calc_vecB()
             )
-        prob_dists = tmp_prob_dists.reshape((self.num_schedules, -1))
-        prob_dists = matrix_util.truncate_and_normalize(prob_dists)
+        # split by the number of outcomes of each schedule (they may differ)
+        sizes = [self.num_outcomes(j) for j in range(self.num_schedules)]
+        prob_dists = [
+            matrix_util.truncate_and_normalize(prob_dist)
+            for prob_dist in np.split(tmp_prob_dists, np.cumsum(sizes)[:-1])
+        ]
+        if len(set(sizes)) == 1:
+            prob_dists = np.array(prob_dists)
 
         return prob_dists
 
